@@ -93,8 +93,26 @@ package builder
 //@ loop 0 invariant no-failure-so-far: storeFailed == old(storeFailed)
 //@ inst prev-stored: i: i
 
+// C02: an entry is filed, at depth d, under the bucket that bits [d*log2(fanout), (d+1)*log2(fanout))
+// of its name's hash spell (most significant bit first) -- the bits the reader consumes at that
+// depth; a bucket that is split passes its fanout, prefix width and hash function on unchanged and
+// sits one level deeper.
+//@ func (*data/builder.shard).add
+//@ prop C02 C10
+//@ at call (*data/builder.hashBits).Slice#1 assert bucket-is-the-hash-bits-of-this-depth: callee_offset == s.depth * s.sizeLg2 && callee_width == s.sizeLg2
+//@ at call (*data/builder.shard).add#2 assert split-bucket-is-one-level-deeper: callee_recv.depth == s.depth + 1 && callee_recv.size == s.size && callee_recv.sizeLg2 == s.sizeLg2 && callee_recv.width == s.width && callee_recv.hasher == s.hasher
+//@ domain bounded-depth: 0 <= s.depth && s.depth <= 64
+
+//@ func (*data/builder.shard).formatLinkName
+//@ prop C02
+//@ requires bucket-in-range: 0 <= idx && idx < s.size
+//@ ensures prefix-is-width-digits: len(result) == s.width + len(name)
+//@ ensures name-follows-the-prefix: substr(result, s.width, len(result)) == name
+//@ assigns nothing
+
 //@ func (*data/builder.shard).serialize
-//@ prop C08 C10
+//@ prop C08 C10 C11
+//@ inst bucket-in-range: k: idx
 //@ ensures any-write-failure-fails-the-build: (err == nil ==> storeFailed == old(storeFailed)) && (old(storeFailed) ==> storeFailed)
 //@ ensures error-implies-nil-link: err != nil ==> result0 == nil
 //@ ensures link-implies-stored: err == nil ==> result0 != nil && stored(result0)
@@ -104,6 +122,10 @@ package builder
 //@ inst monotone-so-far: l: l
 //@ loop 0 invariant no-failure-so-far: storeFailed == old(storeFailed)
 //@ at call data/builder.BuildUnixFSDirectoryEntry#1 assert child-shard-stored-before-parent: stored(callee_hash)
+//@ at call data/builder.BuildUnixFSDirectoryEntry#1 assert child-shard-link-carries-the-size-its-build-returned: callee_size == int64(sz) && callee_hash == ipldLnk
+//@ at call data/builder.BuildUnixFSDirectoryEntry#2 assert entry-link-keeps-its-size-and-target: callee_size == e.hamtLink.PBLink.Tsize.v.x
+//@ at call data/builder.BuildUnixFSDirectoryEntry#1 assert child-shard-link-name-is-just-the-bucket-prefix: len(callee_name) == s.width
+//@ at call data/builder.BuildUnixFSDirectoryEntry#2 assert entry-link-name-is-prefix-then-name: s.width <= len(callee_name) && substr(callee_name, s.width, len(callee_name)) == e.hamtLink.PBLink.Name.v.x
 
 //@ func data/builder.BuildUnixFSShardedDirectory
 //@ prop C08 C10
@@ -114,7 +136,13 @@ package builder
 //@ ensures monotone: forall l Ref :: old(stored(l)) ==> stored(l)
 //@ inst monotone: l: l
 
+// C11: the size returned for a plain directory is the encoded length of its block plus the sum of
+// its entries' Tsize, every entry counted (entries that share a target are counted once each).
+//@ spec def tsizeSum(s []github.com/ipld/go-codec-dagpb.PBLink, n int) uint64 = sum(k, 0, n, uint64(s[k].Tsize.v.x))
 //@ func data/builder.BuildUnixFSDirectory
+//@ prop C11
+//@ loop 0 invariant running-total-counts-every-entry: totalSize == tsizeSum(entries, rangeindex + 1)
+//@ at return assert size-is-block-plus-entry-sizes: err == nil ==> result1 == tsizeSum(entries, len(entries)) + sz
 //@ ensures any-write-failure-fails-the-build: (err == nil ==> storeFailed == old(storeFailed)) && (old(storeFailed) ==> storeFailed)
 //@ ensures error-implies-nil-link: err != nil ==> result0 == nil
 //@ ensures link-implies-stored: err == nil ==> result0 != nil && stored(result0)
@@ -168,4 +196,8 @@ package builder
 // prefixed names of distinct (bucket, name) pairs distinct, which is what lets the codec's sort
 // produce one canonical block whatever order the buckets were visited in.
 //@ props C08 C10
+//@ typeinv data/builder.shard: buckets-are-below-the-fanout: forall k int :: maphas(self.children, k) ==> 0 <= k && k < self.size
+//@ inst lemma buckets-are-below-the-fanout: k: k
+//@ typeinv data/builder.shard: entry-is-a-shard-or-a-link: forall k int :: maphas(self.children, k) ==> (mapget(self.children, k).shard != nil) != (mapget(self.children, k).hamtLink != nil)
+//@ inst lemma entry-is-a-shard-or-a-link: k: k
 //@ typeinv data/builder.shard: 1 <= self.sizeLg2 && self.sizeLg2 <= 10 && self.size == (1 << self.sizeLg2) && self.children != nil && 1 <= self.width && self.width <= 14 && self.size - 1 < (1 << (4 * self.width)) && (self.width == 1 || (1 << (4 * (self.width - 1))) <= self.size - 1)
